@@ -15,6 +15,9 @@ var (
 	HostsTrails = []string{"", " ", "\t", "\r", "\r\r", " #c", "#c", " # c # d", "\v", "\f", " ", " \t ", "#", "\t#\t1.2.3.4 x"}
 )
 
+// LongNames returns names at the label and name length limits.
+func LongNames() []string { return longNames() }
+
 func longNames() []string {
 	return []string{Rep("a", 63) + ".com", Rep("a", 64) + ".com", Rep(Rep("a", 63)+".", 3) + Rep("b", 61), Rep(Rep("a", 63)+".", 3) + Rep("b", 62), Rep("é", 40) + ".com", Rep("x.", 126) + "y", Rep("x.", 127) + "y",
 		// longer than 253 bytes as UTF-8, valid (and shorter) as Punycode - and the other way round
